@@ -1177,3 +1177,187 @@ def multi(*fns):
             obs += g(ctx, mir, stats)
         return obs
     return fn
+
+
+# --------------------------------------------------------------------------
+# C16: NTLM session security structure
+# --------------------------------------------------------------------------
+def ntlm_keys(ctx, mir, stats):
+    obs = []
+    for fname, word in (("sign_key", "signing"), ("seal_key", "sealing")):
+        f = find_fn(mir, r"^%s$" % fname)
+        se = SymExec(f, stats).run()
+        role = [v for nm, (v, ty) in se.inputs.items() if nm.startswith("arg_2#")]
+        seen = set()
+        for p in se.finished:
+            consts = [ev[3] for ev in p.events if ev[0] == "assign" and ev[3].startswith('const b"session key to')]
+            md = calls_on(p.events, r"^md5$")
+            s = z3.Solver()
+            for c in p.cond:
+                s.add(c)
+            s.push(); s.add(role[0] == 1); is_client = s.check() == z3.sat; s.pop()
+            want = "client-to-server" if is_client else "server-to-client"
+            ok = len(consts) == 1 and want in consts[0] and word in consts[0] and consts[0].rstrip('"').endswith("magic constant\\x00") and len(md) == 1
+            seen.add(is_client)
+            obs.append({"id": "%s:%s" % (fname, "client" if is_client else "server"), "ok": ok, "functions": [f.name],
+                        "detail": "%s(%s) = MD5(key || \"session key to %s %s key magic constant\\0\")" % (fname, "client" if is_client else "server", want, word) if ok else "%s derives from %s" % (fname, consts), "where": f.name})
+        obs.append({"id": "%s:both-roles" % fname, "ok": seen == {True, False}, "functions": [f.name], "detail": "both roles present"})
+    g = find_fn(mir, r"ntlm::<impl at src/nla/ntlm\.rs[^>]*>::build_security_interface$")
+    sg = SymExec(g, stats).run()
+    done = False
+    for p in sg.finished:
+        nc = calls_on(p.events, r"NTLMv2SecurityInterface::new$")
+        if not nc:
+            continue
+        i, ev = nc[0]
+        srcs = [resolve_source(p.events, i, a) for a in ev[4]]
+
+        def role_of(src, fn):
+            m = re.search(r"CALL %s\(.*?, const (true|false)\)" % fn, src)
+            return m.group(1) if m else None
+        enc = re.search(r"CALL rc4::Rc4::new\(", srcs[0]) and role_of(srcs[0], "seal_key")
+        dec = re.search(r"CALL rc4::Rc4::new\(", srcs[1]) and role_of(srcs[1], "seal_key")
+        sig = role_of(srcs[2], "sign_key")
+        ver = role_of(srcs[3], "sign_key")
+        ok = (enc, dec, sig, ver) == ("true", "false", "true", "false")
+        obs.append({"id": "build_security_interface:wiring", "ok": ok, "functions": [g.name],
+                    "detail": "encrypt = RC4(client sealing key), decrypt = RC4(server sealing key), signing = client signing key, verify = server signing key" if ok else "wiring is %s" % [s[:90] for s in srcs], "where": g.name})
+        done = True
+        break
+    if not done:
+        raise Inconclusive("ENCODING-FAILED: NTLMv2SecurityInterface::new call not found")
+    return obs
+
+
+def unwrap_order(ctx, mir, stats):
+    f = find_fn(mir, r"ntlm::<impl at src/nla/ntlm\.rs[^>]*>::gss_unwrapex$")
+    obs = []
+    procs = call_blocks(f, r"rc4::Rc4::process$")
+    hm = call_blocks(f, r"^hmac_md5$")
+    cmpb = call_blocks(f, r"<&\[u8\] as PartialEq>::(ne|eq)$|<\[u8\] as PartialEq>::(ne|eq)$")
+    bad = stmt_blocks(f, r"RdpErrorKind::InvalidChecksum")
+    okb = stmt_blocks(f, r"_0 = Result::<Vec<u8>, model::error::Error>::Ok\(")
+    if len(procs) != 2 or len(hm) != 1 or len(cmpb) != 1 or not bad or len(okb) != 1:
+        raise Inconclusive("ENCODING-FAILED: gss_unwrapex shape not recognised (process=%s hmac=%s cmp=%s bad=%s ok=%s)" % (procs, hm, cmpb, bad, okb))
+    rs = result_switch(f, cmpb[0])
+    if not rs:
+        raise Inconclusive("ENCODING-FAILED: checksum comparison is not branched on")
+    sw, tg = rs
+    sides = {lab: any(b in bfs_reach(f, t) for b in bad) for lab, t in tg.items()}
+    badl = [l for l, v in sides.items() if v]
+    goodl = [l for l, v in sides.items() if not v]
+    if len(badl) != 1 or len(goodl) != 1:
+        raise Inconclusive("ENCODING-FAILED: cannot tell mismatch edge from match edge")
+    callee = f.blocks[cmpb[0]].t["func"]
+    pol = (callee.endswith("::ne") and goodl[0] == "0") or (callee.endswith("::eq") and goodl[0] != "0")
+    obs.append({"id": "unwrap:polarity", "ok": pol, "functions": [f.name], "detail": "plaintext is returned exactly when the decrypted checksum equals the computed one" if pol else "checksum comparison inverted", "where": f.name})
+    r1 = fp_reachable(f, f.order[0], okb[0], stats, removed_edges={(sw, goodl[0], tg[goodl[0]])})
+    obs.append({"id": "unwrap:plaintext-only-through-match", "ok": not r1, "functions": [f.name], "detail": "Ok(plaintext) is reachable only through the checksum-match edge" if not r1 else "Ok(plaintext) reachable without a checksum match", "where": f.name})
+    r2 = fp_reachable(f, tg[badl[0]], okb[0], stats)
+    obs.append({"id": "unwrap:mismatch-yields-no-plaintext", "ok": not r2, "functions": [f.name], "detail": "no Ok return is reachable from the mismatch edge" if not r2 else "mismatch edge can still return plaintext", "where": f.name})
+    # dataflow on the single main path
+    se = SymExec(f, stats, max_paths=5000).run()
+    main = None
+    for p in se.finished:
+        if re.match(r"Result::<Vec<u8>, .*>::Ok\(", _last_assign_to_ret(p) or ""):
+            main = p
+    if main is None:
+        raise Inconclusive("ENCODING-FAILED: no Ok path explored in gss_unwrapex")
+    ev = main.events
+    pc = calls_on(ev, r"rc4::Rc4::process$")
+    hc = calls_on(ev, r"^hmac_md5$")
+    cc = calls_on(ev, r"PartialEq>::(ne|eq)$")
+    rd = calls_on(ev, r"<Vec<u8> as Message>::read$")
+    ck = [(i, e) for i, e in calls_on(ev, r"as Index<&str>>::index$") if 'const "Checksum"' in " ".join(e[4])]
+    sq = [(i, e) for i, e in calls_on(ev, r"as Index<&str>>::index$") if 'const "SeqNum"' in " ".join(e[4])]
+    ok_order = len(pc) == 2 and rd and ck and sq and rd[0][0] < pc[0][0] < ck[0][0] < pc[1][0] < hc[0][0] < cc[0][0]
+    obs.append({"id": "unwrap:keystream-order", "ok": bool(ok_order), "functions": [f.name],
+                "detail": "payload is decrypted first, then the checksum (MS-NLMP keystream order), then HMAC, then the comparison" if ok_order else "operation order changed", "where": f.name})
+    # both process calls use the decrypt cipher (field 1 of self), hmac uses verify_key (field 3)
+    ciph = [resolve_source(ev, i, e[4][0]) for i, e in pc]
+    both_dec = all(re.search(r"\(\*_1\)\.1: nla::rc4::Rc4", c) for c in ciph)
+    obs.append({"id": "unwrap:decrypt-cipher", "ok": both_dec, "functions": [f.name], "detail": "both RC4 passes use the decrypt (peer-to-client) cipher state" if both_dec else "cipher used: %s" % ciph, "where": f.name})
+    hk = resolve_source(ev, hc[0][0], hc[0][1][4][0])
+    t_key = path_taint(ev[:hc[0][0]], {"(*_1).3", "((*_1).3: std::vec::Vec<u8>)"})
+    key_ok = "(*_1).3" in hk or any(_mentions(hc[0][1][4][0], x) for x in t_key)
+    obs.append({"id": "unwrap:verify-key", "ok": key_ok, "functions": [f.name], "detail": "HMAC is keyed with verify_key (the peer's signing key)" if key_ok else "HMAC key source: %s" % hk, "where": f.name})
+    # hmac data = concat[seq_num bytes, plaintext]; comparison operands: decrypted checksum vs hmac[0..8]
+    t_plain = path_taint(ev[pc[0][0]:], {re.sub(r"^(copy|move) ", "", pc[0][1][4][2]).strip()})
+    # output buffer of the first process call is a deref_mut of the plaintext vector: taint back to the vector
+    dsrc = resolve_source(ev, pc[0][0], pc[0][1][4][2])
+    t_hmac = path_taint(ev[hc[0][0]:], {hc[0][1][5]})
+    t_ck = path_taint(ev[pc[1][0]:], set())
+    dck = resolve_source(ev, pc[1][0], pc[1][1][4][2])
+    a0 = resolve_source(ev, cc[0][0], cc[0][1][4][0])
+    a1 = resolve_source(ev, cc[0][0], cc[0][1][4][1])
+    uses_hmac = any(_mentions(a, x) for a in cc[0][1][4] for x in t_hmac) or "hmac" in a0 + a1
+    rng = [e for i, e in calls_on(ev[hc[0][0]:cc[0][0]], r"as Index<std::ops::Range<usize>>>::index$")]
+    rsrc = resolve_source(ev, cc[0][0], rng[0][4][1]) if rng else ""
+    trunc8 = bool(re.search(r"start: const 0_usize, end: const 8_usize", rsrc))
+    obs.append({"id": "unwrap:compares-hmac-prefix", "ok": uses_hmac and trunc8, "functions": [f.name],
+                "detail": "the decrypted checksum is compared with the first 8 bytes of the computed HMAC" if (uses_hmac and trunc8) else "comparison operands: %s / %s (range %s)" % (a0[:80], a1[:80], rsrc[:80]), "where": f.name})
+    return obs
+
+
+def wrap_order(ctx, mir, stats):
+    obs = []
+    f = find_fn(mir, r"ntlm::<impl at src/nla/ntlm\.rs[^>]*>::gss_wrapex$")
+    se = SymExec(f, stats).run()
+    main = None
+    for p in se.finished + [a[0] for a in se.asserts]:
+        if calls_on(p.events, r"^mac$") and calls_on(p.events, r"^to_vec$"):
+            main = p
+    if main is None:
+        raise Inconclusive("ENCODING-FAILED: gss_wrapex main path not found")
+    ev = main.events
+    pc = calls_on(ev, r"rc4::Rc4::process$")
+    mc = calls_on(ev, r"^mac$")
+    tv = calls_on(ev, r"^to_vec$")
+    pushes = calls_on(ev, r"Vec::<Box<dyn Message>>::push$")
+    ok = len(pc) == 1 and len(mc) == 1 and pc[0][0] < mc[0][0] < tv[0][0]
+    enc = resolve_source(ev, pc[0][0], pc[0][1][4][0]) if pc else ""
+    enc2 = resolve_source(ev, mc[0][0], mc[0][1][4][0]) if mc else ""
+    same_cipher = bool(re.search(r"\(\*_1\)\.0: nla::rc4::Rc4", enc)) and bool(re.search(r"\(\*_1\)\.0: nla::rc4::Rc4", enc2))
+    key = resolve_source(ev, mc[0][0], mc[0][1][4][1]) if mc else ""
+    obs.append({"id": "wrap:encrypt-then-mac-same-cipher", "ok": bool(ok and same_cipher), "functions": [f.name],
+                "detail": "data is RC4-encrypted first, then the signature is produced with the same (client-to-server) cipher state" if (ok and same_cipher) else "order/cipher changed: %s %s" % (enc[:60], enc2[:60]), "where": f.name})
+    # seq_num incremented exactly once by 1 after mac
+    incs = []
+    for k, e in enumerate(ev):
+        if e[0] == "assign" and e[2].strip() == "((*_1).4: u32)":
+            m = re.match(r"move \((_\d+)\.0: u32\)$", e[3])
+            src = resolve_source(ev, k, m.group(1)) if m else e[3]
+            m2 = re.match(r"AddWithOverflow\(copy (_\d+), const 1_u32\)$", src)
+            if m2 and "((*_1).4: u32)" in resolve_source(ev, k, m2.group(1)):
+                incs.append(e)
+            else:
+                incs.append(("bad", src))
+    obs.append({"id": "wrap:seq-num-increment", "ok": len(incs) == 1 and incs[0][0] == "assign", "functions": [f.name], "detail": "seq_num advances by exactly 1 per sealed message" if len(incs) == 1 else "seq_num updates: %s" % [e[3] for e in incs], "where": f.name})
+    # trame![signature, encrypted_data] order
+    if len(pushes) == 2:
+        s0 = resolve_source(ev, pushes[0][0], pushes[0][1][4][1])
+        s1 = resolve_source(ev, pushes[1][0], pushes[1][1][4][1])
+        t_sig = path_taint(ev[mc[0][0]:], {mc[0][1][5]})
+        order = any(_mentions(pushes[0][1][4][1], x) for x in t_sig) and not any(_mentions(pushes[1][1][4][1], x) for x in t_sig)
+        obs.append({"id": "wrap:signature-then-ciphertext", "ok": order, "functions": [f.name], "detail": "token = signature followed by ciphertext" if order else "token order changed", "where": f.name})
+    g = find_fn(mir, r"^mac$")
+    sg = SymExec(g, stats).run()
+    mp = None
+    for p in sg.finished + [a[0] for a in sg.asserts]:
+        if calls_on(p.events, r"^message_signature_ex$"):
+            mp = p
+    if mp is None:
+        raise Inconclusive("ENCODING-FAILED: mac main path not found")
+    ev = mp.events
+    hc = calls_on(ev, r"^hmac_md5$")
+    pc = calls_on(ev, r"rc4::Rc4::process$")
+    ms = calls_on(ev, r"^message_signature_ex$")
+    cat = calls_on(ev, r"concat::<u8>$")
+    ok = len(hc) == 1 and len(pc) == 1 and len(ms) == 1 and cat and cat[0][0] < hc[0][0] < pc[0][0] < ms[0][0]
+    rng = [resolve_source(ev, i, e[4][1]) for i, e in calls_on(ev, r"as Index<std::ops::Range<usize>>>::index$") if hc[0][0] < i < pc[0][0]] if hc and pc else []
+    t8 = any(re.search(r"start: const 0_usize, end: const 8_usize", r) for r in rng)
+    seq_same = ms and hc and re.sub(r"^(copy|move) ", "", ms[0][1][4][1]).strip() != "" and "_3" in resolve_source(ev, ms[0][0], ms[0][1][4][1])
+    obs.append({"id": "mac:hmac-then-rc4-first-8", "ok": bool(ok and t8), "functions": [g.name],
+                "detail": "MAC = RC4(HMAC-MD5(signing_key, seq_num || data)[0..8]) wrapped in a version-1 signature" if (ok and t8) else "mac structure changed (ranges %s)" % rng, "where": g.name})
+    obs.append({"id": "mac:seq-num-in-signature", "ok": bool(seq_same), "functions": [g.name], "detail": "the signature carries the same seq_num that was authenticated" if seq_same else "seq_num in signature differs from the MACed one", "where": g.name})
+    return obs
